@@ -24,6 +24,9 @@ type C07Case struct {
 	Script  []Call   `json:"script"`
 	RawReq  []byte   `json:"raw_request,omitempty"` // fed to ParseRequestReader instead of the script when set
 	Traffic bool     `json:"traffic"`
+	// HostileTraffic: request values were built from the decoders' escape alphabets and the configuration
+	// carries rules that run transformation chains over everything the peer controls
+	HostileTraffic bool `json:"hostile_traffic,omitempty"`
 }
 
 var c07Once sync.Once
@@ -431,6 +434,32 @@ func genC07(t *rapid.T) *C07Case {
 	}
 	// traffic
 	c.Req = genC01Req(t)
+	if rapid.Bool().Draw(t, "hostiletraffic") {
+		// values made of every decoder's escape alphabet, complete and truncated, anywhere a peer can put bytes
+		c.HostileTraffic = true
+		for _, l := range []*[]KV{&c.Req.Query, &c.Req.Post, &c.Req.Headers, &c.Req.Cookies} {
+			for i := range *l {
+				if rapid.Bool().Draw(t, "hv") {
+					(*l)[i].V = string(genC14Input(t))
+				}
+			}
+		}
+		if len(c.Req.Query) == 0 {
+			c.Req.Query = append(c.Req.Query, KV{"q", string(genC14Input(t))})
+		}
+		loadVocab()
+		nt := rapid.IntRange(1, 3).Draw(t, "ntrules")
+		for i := 0; i < nt; i++ {
+			tl := "t:none"
+			for j, k := 0, rapid.IntRange(1, 3).Draw(t, "ntr"); j < k; j++ {
+				tl += ",t:" + rapid.SampledFrom(vocabData.transformations).Draw(t, "tr")
+			}
+			if rapid.IntRange(0, 3).Draw(t, "mm") == 0 {
+				tl += ",multiMatch"
+			}
+			c.Lines = append(c.Lines, fmt.Sprintf("SecRule ARGS|ARGS_NAMES|REQUEST_HEADERS|REQUEST_COOKIES|REQUEST_URI|REQUEST_BODY \"@rx .\" \"id:%d,phase:2,pass,nolog,%s\"", 9000+i, tl))
+		}
+	}
 	if rapid.Bool().Draw(t, "rawbody") {
 		b := rapid.SampledFrom(c07Bodies).Draw(t, "body")
 		c.Req.Post = nil
@@ -592,6 +621,9 @@ func checkC07(c *C07Case) Result {
 		}
 		if c.RawReq != nil {
 			res.Labels = append(res.Labels, "parse-request-reader")
+		}
+		if c.HostileTraffic && c.Traffic && c.RawReq == nil {
+			res.Labels = append(res.Labels, "hostile-values-through-transformation-chains")
 		}
 		res.NonTrivial = c.Traffic && len(c.Lines) > 0
 	} else {
